@@ -24,3 +24,61 @@ package discov
 //@   loop 1 invariant -1 <= rangeindex && rangeindex <= len(keys)
 //@   loop 1 iteration-ensures [exclusive-evicts-each] calls(c.doRemoveKey, at_head(keys[rangeindex + 1])) == 1
 //@   ensures [shared-keeps] !c.exclusive ==> calls(doRemoveKey) == 0
+
+// ---------------- the rest of the subscriber's container (C15) ----------------
+// An added key is recorded and then every change listener runs; a deleted key likewise.
+//@ func (*container).OnAdd
+//@   prop C15
+//@   opaque addKv, notifyChange
+//@   requires c != nil
+//@   ensures [recorded-then-announced] calls(c.addKv, kv.Key, kv.Val) == 1 && calls(c.notifyChange) == 1 && before(addKv, notifyChange)
+//@ func (*container).OnDelete
+//@   prop C15
+//@   opaque removeKey, notifyChange
+//@   requires c != nil
+//@   ensures [removed-then-announced] calls(c.removeKey, kv.Key) == 1 && calls(c.notifyChange) == 1 && before(removeKey, notifyChange)
+//@ func (*container).removeKey
+//@   prop C15
+//@   opaque doRemoveKey, Set
+//@   requires c != nil
+//@   ensures [under-lock-and-marked-dirty] calls(c.doRemoveKey, key) == 1 && calls(c.dirty.Set, true) == 1 && before(on("lock", c.lock), doRemoveKey) && before(doRemoveKey, on("unlock", c.lock)) && before(Set, doRemoveKey)
+// notifyChange: every registered listener runs exactly once, in registration order, outside the lock.
+//@ func (*container).notifyChange
+//@   prop C15
+//@   requires c != nil
+//@   loop 1 invariant -1 <= rangeindex && rangeindex <= len(listeners)
+//@   loop 1 iteration-ensures [each-listener-once] calls(listener) == 1 && listener == at_head(listeners[rangeindex + 1]) && calls(on("lock", c.lock)) == 0
+//@   ensures [snapshot-of-the-listeners-under-lock] calls(on("lock", c.lock)) == 1 && calls(on("unlock", c.lock)) == 1
+//@ func (*container).addListener
+//@   prop C15
+//@   requires c != nil
+//@   ensures [appended] len(c.listeners) == old(len(c.listeners)) + 1 && c.listeners[len(c.listeners) - 1] == listener
+// getValues: a clean container answers from its snapshot; a dirty one rebuilds the list - one entry per DISTINCT
+// value currently present - publishes it as the snapshot and only then clears the dirty flag, all under the lock.
+//@ func (*container).getValues
+//@   prop C15
+//@   opaque True, Set, Load, Store
+//@   requires c != nil && c.values != nil
+//@   loop 1 iteration-ensures [every-present-value-once] len(vals) == at_head(len(vals)) + 1 && has(c.values, each) && vals[at_head(len(vals))] == each
+//@   ensures [clean-from-snapshot] !ret(True) ==> calls(Load) == 1 && calls(on("lock", c.lock)) == 0 && calls(Store) == 0
+//@   ensures [dirty-rebuilt-under-lock] ret(True) ==> calls(on("lock", c.lock)) == 1 && calls(c.snapshot.Store) == 1 && unbox(arg(c.snapshot.Store, 1), []string) == result && calls(c.dirty.Set, false) == 1 && before(Store, Set) && before(Set, on("unlock", c.lock))
+//@ func newContainer
+//@   prop C15
+//@   opaque ForAtomicBool
+//@   ensures [empty-and-dirty] result != nil && result.exclusive == exclusive && result.values != nil && result.mapping != nil && calls(syncx.ForAtomicBool, true) == 1 && result.dirty == ret(ForAtomicBool) && forallk(s, string, !has(result.values, s) && !has(result.mapping, s))
+//@ func (*Subscriber).Values
+//@   prop C15
+//@   opaque getValues
+//@   requires s != nil
+//@   ensures [the-containers-values] calls(s.items.getValues) == 1 && result == ret(getValues)
+//@ func Exclusive$1
+//@   prop C15
+//@   requires sub != nil
+//@   ensures sub.exclusive
+//@ func NewSubscriber
+//@   prop C15
+//@   opaque newContainer, GetRegistry, Monitor
+//@   loop 1 invariant -1 <= rangeindex
+//@   ensures [monitors-the-key-with-its-container] calls(Monitor) == 1 && arg(Monitor, 1) == endpoints && arg(Monitor, 2) == key && calls(newContainer) == 1 && unbox(arg(Monitor, 3), ptr(container)) == ret(newContainer)
+//@   ensures [monitor-error] ret(Monitor) != nil ==> result0 == nil && result1 == ret(Monitor)
+//@   ensures [built] ret(Monitor) == nil ==> result1 == nil && result0 != nil && result0.items == ret(newContainer)
